@@ -261,7 +261,11 @@ NA_ArmPNameEnd(h, buf, i, st, s, c) ==
          NA_Run(h, buf, i + 1,
                 NA_SetFromParamVal(buf,
                   [st EXCEPT !.state = IF st.state = "fbParamNameEnd" THEN "fbNewParam" ELSE "fbNewPossibleParam"]), s)
-    [] OTHER -> NA_Ret(st, i, BADCHAR)                        \* NOTE: also ',' ("<sip:a>;p ,<sip:b>")
+    [] c = COMMA ->                                           \* whitespace between the param name and ','
+         IF MultipleValsOk(h)                                 \* retOkErr = MoreValues; n = i; crl = 1; i = pfrom.pend
+         THEN NA_EndOfHdr(h, buf, st, s, st.pend, i, 1, MOREVALUES)
+         ELSE NA_Ret(st, i, BADCHAR)
+    [] OTHER -> NA_Ret(st, i, BADCHAR)
 
 \* case fbNewParamVal, fbNewPossibleVal, fbParamVal, fbPossibleVal
 NA_ArmPVal(h, buf, i, st, s, c) ==
@@ -298,7 +302,11 @@ NA_ArmPValEnd(h, buf, i, st, s, c) ==
          NA_Run(h, buf, i + 1,
                 NA_SetFromParamVal(buf,
                   [st EXCEPT !.state = IF st.state = "fbParamValEnd" THEN "fbNewParam" ELSE "fbNewPossibleParam"]), s)
-    [] OTHER -> NA_Ret(st, i, BADCHAR)                        \* NOTE: also ','
+    [] c = COMMA ->                                           \* whitespace between the param value and ','
+         IF MultipleValsOk(h)                                 \* retOkErr = MoreValues; n = i; crl = 1; i = pfrom.vend
+         THEN NA_EndOfHdr(h, buf, st, s, st.vend, i, 1, MOREVALUES)
+         ELSE NA_Ret(st, i, BADCHAR)
+    [] OTHER -> NA_Ret(st, i, BADCHAR)
 
 \* case fbStar
 NA_ArmStar(h, buf, i, st, s, c) ==
